@@ -51,6 +51,17 @@ theorem C32_count_checker (x r : Dy) (res : Except SamplingErr Nat) :
     countSpecB x r res = true ↔ CountSpec x r res :=
   countSpecB_iff x r res
 
+/-- the form evaluated on the implementation's outputs leaves open WHICH error is reported when the
+rounded count is out of range and the duration is misaligned at once; the model's outcome satisfies it,
+and its Bool checker is the specification -/
+theorem C32_count_loose (fmul : Dy → Dy → Dy) (d r : Dy) :
+    CountSpecLoose (fmul d r) r (resolveCount fmul d r) :=
+  countSpec_loose _ _ _ (resolveCount_spec fmul d r)
+
+theorem C32_count_loose_checker (x r : Dy) (res : Except SamplingErr Nat) :
+    countSpecLooseB x r res = true ↔ CountSpecLoose x r res :=
+  countSpecLooseB_iff x r res
+
 example : resolveCount Dy.mul ⟨88, 0⟩ ⟨1, 0⟩ = .ok 88 := by rfl
 example : resolveCount Dy.mul ⟨5, 1⟩ ⟨1, 0⟩ = .error .misaligned := by rfl        -- 2.5 samples
 example : resolveCount Dy.mul ⟨3082, 10⟩ ⟨1, 0⟩ = .ok 3 := by rfl               -- 3 + 10/1024 < 3.01
